@@ -25,6 +25,10 @@ pub enum CapEntry {
     CaptureSlicesDeadline,
     /// Compact<Replace<Capture>> assembled by hand around algorithms::diff (as documented)
     Manual,
+    /// TextDiff::from_slices(..).ops() over one-character SymTxt tokens
+    TextFromSlices,
+    /// TextDiff::configure().algorithm(a).deadline(..).diff_slices(..).ops()
+    TextConfigDeadline,
 }
 impl CapEntry {
     fn name(&self) -> &'static str {
@@ -34,6 +38,8 @@ impl CapEntry {
             CapEntry::CaptureSlices => "capture_diff_slices",
             CapEntry::CaptureSlicesDeadline => "capture_diff_slices_deadline",
             CapEntry::Manual => "Compact<Replace<Capture>>+algorithms::diff",
+            CapEntry::TextFromSlices => "TextDiff::from_slices",
+            CapEntry::TextConfigDeadline => "TextDiffConfig::deadline+diff_slices",
         }
     }
     fn from(s: &str) -> CapEntry {
@@ -42,14 +48,16 @@ impl CapEntry {
             "capture_diff_deadline" => CapEntry::CaptureDiffDeadline,
             "capture_diff_slices" => CapEntry::CaptureSlices,
             "capture_diff_slices_deadline" => CapEntry::CaptureSlicesDeadline,
+            "TextDiff::from_slices" => CapEntry::TextFromSlices,
+            "TextDiffConfig::deadline+diff_slices" => CapEntry::TextConfigDeadline,
             _ => CapEntry::Manual,
         }
     }
     fn takes_deadline(&self) -> bool {
-        matches!(self, CapEntry::CaptureDiffDeadline | CapEntry::CaptureSlicesDeadline)
+        matches!(self, CapEntry::CaptureDiffDeadline | CapEntry::CaptureSlicesDeadline | CapEntry::TextConfigDeadline)
     }
     fn slices_only(&self) -> bool {
-        matches!(self, CapEntry::CaptureSlices | CapEntry::CaptureSlicesDeadline)
+        matches!(self, CapEntry::CaptureSlices | CapEntry::CaptureSlicesDeadline | CapEntry::TextFromSlices | CapEntry::TextConfigDeadline)
     }
 }
 
@@ -79,6 +87,37 @@ pub fn capture(s: &Shape, inp: &Inputs) -> Vec<DiffOp> {
         },
         CapEntry::CaptureSlicesDeadline => match (&inp.old, &inp.new) {
             (Seq::Slice(o), Seq::Slice(n)) => capture_diff_slices_deadline(s.alg, &o[..], &n[..], dl),
+            _ => unreachable!(),
+        },
+        CapEntry::TextFromSlices | CapEntry::TextConfigDeadline => match (&inp.old, &inp.new) {
+            (Seq::Slice(o), Seq::Slice(n)) => {
+                use crate::symtxt::SymTxt;
+                let ot: Vec<&SymTxt> = (0..o.len()).map(|i| SymTxt::new(&o[i..i + 1])).collect();
+                let nt: Vec<&SymTxt> = (0..n.len()).map(|i| SymTxt::new(&n[i..i + 1])).collect();
+                let diff = if s.entry == CapEntry::TextFromSlices {
+                    // from_slices is Myers-only; other algorithms go through configure()
+                    if s.alg == Algorithm::Myers {
+                        similar::TextDiff::from_slices(&ot, &nt)
+                    } else {
+                        similar::TextDiff::configure().algorithm(s.alg).diff_slices(&ot, &nt)
+                    }
+                } else {
+                    let mut c = similar::TextDiff::configure();
+                    c.algorithm(s.alg);
+                    if let Some(d) = dl {
+                        c.deadline(d);
+                    }
+                    c.diff_slices(&ot, &nt)
+                };
+                let ops = diff.ops().to_vec();
+                claim!(
+                    diff.ratio() == get_diff_ratio(&ops, o.len(), n.len()),
+                    "TextDiff::ratio() {} differs from get_diff_ratio over its ops and token counts",
+                    diff.ratio()
+                );
+                claim!(diff.old_slices().len() == o.len() && diff.new_slices().len() == n.len(), "TextDiff lost tokens");
+                ops
+            }
             _ => unreachable!(),
         },
         CapEntry::Manual => {
@@ -245,7 +284,7 @@ impl Prop for Captured {
                         }
                         let entries: Vec<(CapEntry, bool)> = match self.0 {
                             Which::C03 => vec![(CapEntry::CaptureDiff, false)],
-                            Which::C11 => vec![(CapEntry::CaptureDiff, false), (CapEntry::CaptureSlices, false), (CapEntry::Manual, false)],
+                            Which::C11 => vec![(CapEntry::CaptureDiff, false), (CapEntry::CaptureSlices, false), (CapEntry::Manual, false), (CapEntry::TextFromSlices, false)],
                             _ => vec![
                                 (CapEntry::CaptureDiff, false),
                                 (CapEntry::CaptureDiffDeadline, false),
@@ -253,6 +292,8 @@ impl Prop for Captured {
                                 (CapEntry::CaptureSlices, false),
                                 (CapEntry::CaptureSlicesDeadline, true),
                                 (CapEntry::Manual, false),
+                                (CapEntry::TextFromSlices, false),
+                                (CapEntry::TextConfigDeadline, true),
                             ],
                         };
                         for (entry, clock) in entries {
@@ -322,6 +363,7 @@ impl Prop for Captured {
             "similar::DiffOp::{as_tag_tuple, apply_to_hook, grow/shrink/shift helpers}",
             "similar::algorithms::{myers, patience, lcs}::diff_deadline and callees",
             "similar::get_diff_ratio",
+            "similar::TextDiff::{from_slices, ops, ratio}, TextDiffConfig::{algorithm, deadline, diff_slices, diff} over one-character SymTxt tokens",
         ];
         if self.0 == Which::C03 {
             functions.push("similar::algorithms::diff (raw callback stream, monitored)");
@@ -341,12 +383,12 @@ impl Prop for Captured {
                 max,
                 match self.0 {
                     Which::C03 => "{capture_diff, algorithms::diff raw}",
-                    Which::C11 => "{capture_diff, capture_diff_slices, hand-assembled Compact<Replace<Capture>>}",
-                    _ => "{capture_diff, capture_diff_deadline(None), capture_diff_deadline(symbolic clock), capture_diff_slices, capture_diff_slices_deadline(symbolic clock), hand-assembled Compact<Replace<Capture>>}",
+                    Which::C11 => "{capture_diff, capture_diff_slices, hand-assembled Compact<Replace<Capture>>, TextDiff::from_slices}",
+                    _ => "{capture_diff, capture_diff_deadline(None), capture_diff_deadline(symbolic clock), capture_diff_slices, capture_diff_slices_deadline(symbolic clock), hand-assembled Compact<Replace<Capture>>, TextDiff::from_slices / configure().diff_slices, TextDiffConfig::deadline(symbolic clock).diff_slices}",
                 },
                 if matches!(self.0, Which::C02 | Which::C09) { "; deadline = virtual clock (hook H1), one z3 Bool per probe with a latch, so every expiry point is explored" } else { "" }
             ),
-            outside: "range lengths beyond the bound; the f32 rounding regime of very long inputs (see the Kani harness for get_diff_ratio); TextDiff::ops (same pipeline, decided with the text properties)".into(),
+            outside: "range lengths beyond the bound; the f32 rounding regime of very long inputs (see the Kani harness for get_diff_ratio); text diffs built by the tokenizing constructors (decided in C04/C14)".into(),
             assumptions: vec![
                 "items are touched only via PartialEq/Ord/Hash".into(),
                 "constant Hash for symbolic items (lawful); concrete re-execution of sampled leaves hashes values".into(),
